@@ -186,6 +186,9 @@ pub struct A16x16(pub [u8; 16]);
 #[repr(C, align(16))]
 #[derive(Clone, Copy)]
 pub struct A64x16(pub [u8; 64]);
+#[repr(C, align(64))]
+#[derive(Clone, Copy)]
+pub struct A64x64(pub [u8; 64]);
 #[repr(C, align(16))]
 #[derive(Clone, Copy)]
 pub struct A32x16(pub [u8; 32]);
@@ -221,6 +224,7 @@ macro_rules! with_type {
       (16, 16) => Some($f::<$crate::common::A16x16, $A>($($args),*)),
       (32, 16) => Some($f::<$crate::common::A32x16, $A>($($args),*)),
       (64, 16) => Some($f::<$crate::common::A64x16, $A>($($args),*)),
+      (64, 64) => Some($f::<$crate::common::A64x64, $A>($($args),*)),
       _ => None,
     }
   };
